@@ -18,42 +18,127 @@ REDUCTIONS = {"mean_axis", "std_axis", "var_axis", "fold_axis", "map_axis", "sum
 COUNT_WORDS = ("call:dim(", "call:nsamples(", "call:nrows(", "call:len_of(", "call:shape(")
 
 
+PARTS = ("records", "targets", "weights", "feature_names", "target_names")
+
+
+def builder_summaries(F):
+    """{method name: {part: 'self' | ('arg', i) | 'fresh'}} for the DatasetBase builder methods, read off their bodies:
+    a struct literal `DatasetBase { records, targets: self.targets, weights: Array1::zeros(0), .. }` or
+    `self.f = <expr over a parameter>; self`."""
+    out = {}
+    for fn in F.all_fns():
+        d = fn["d"]
+        if d["krate"] != "linfa" or not (d.get("self_adt") or "").endswith("DatasetBase") or d["name"] not in ("new", "with_records", "with_targets", "with_weights", "with_feature_names", "with_target_names"):
+            continue
+        params = [p_ for p_ in fn["params"] if p_.get("k") == "Bind"]
+        pidx = {p_["local"]: i for i, p_ in enumerate(params)}
+        self_local = next((p_["local"] for p_ in params if p_["name"] == "self"), None)
+        summ = {}
+        body = fn["body"]
+        lit = next((x for x in walk(body) if x.get("k") == "Struct" and (fn["crate"].dfn(x.get("def")) or {}).get("path", "").endswith("DatasetBase")), None)
+
+        alias = {}
+        for x in walk(body):
+            if x.get("k") == "LetStmt" and x.get("init") is not None and x["pat"].get("k") == "Bind":
+                i0 = peel_refs(x["init"])
+                if i0.get("k") == "Path" and "local" in i0:
+                    alias[x["pat"]["local"]] = i0["local"]
+
+        def src(e):
+            locs = [y for y in walk(e) if y.get("k") == "Path" and "local" in y]
+            for y in locs:
+                l = y["local"]
+                for _ in range(4):
+                    if l in alias:
+                        l = alias[l]
+                if l in pidx and l != self_local:
+                    return ("arg", pidx[l])
+            return None
+        if lit is not None:
+            for f_ in lit["fields"]:
+                e = peel_refs(f_["e"])
+                if e.get("k") == "Field" and peel_refs(e["e"]).get("local") == self_local and e["name"] == f_["name"]:
+                    summ[f_["name"]] = "self"
+                else:
+                    summ[f_["name"]] = src(f_["e"]) or "fresh"
+        else:
+            summ = {p_: "self" for p_ in PARTS}
+            for x in walk(body):
+                if x.get("k") == "Assign":
+                    t = strip(x["l"])
+                    if t.get("k") == "Field" and peel_refs(t["e"]).get("local") == self_local and t["name"] in PARTS:
+                        summ[t["name"]] = src(x["r"]) or "fresh"
+        if set(summ) >= set(PARTS):
+            out[d["name"]] = summ
+    return out
+
+
+def dataset_parts(v, summaries, depth=0):
+    """{part: term | 'fresh'} of a dataset-valued term built with the DatasetBase builder methods, or None"""
+    t = as_term(v)
+    if t is None or depth > 8:
+        return None
+    if t.op.startswith("param:"):
+        return {p_: Term("field:%s" % p_, (t,)) for p_ in PARTS}
+    if t.op.startswith("struct:") and t.op.endswith("DatasetBase"):
+        got = {a.op[1:]: a.args[0] for a in t.args if isinstance(a, Term) and a.op.startswith("=") and a.args}
+        return {p_: got.get(p_, "fresh") for p_ in PARTS}
+    if t.op.startswith("call:") and t.name in summaries:
+        summ = summaries[t.name]
+        args = list(t.args)
+        has_self = any(v_ == "self" for v_ in summ.values()) or t.name != "new"
+        base = dataset_parts(args[0], summaries, depth + 1) if (has_self and args) else None
+        if has_self and base is None and t.name != "new":
+            return None
+        out = {}
+        for p_ in PARTS:
+            sv = summ[p_]
+            if sv == "self":
+                out[p_] = base[p_] if base else "fresh"
+            elif sv == "fresh":
+                out[p_] = "fresh"
+            else:
+                i = sv[1] if t.name != "new" else sv[1]
+                out[p_] = args[i] if i < len(args) else "fresh"
+        return out
+    return None
+
+
 def rule_meta(ctx):
     res = RuleResult("R-C16-meta", "dataset-level transforms pass targets, weights, feature names and target names through unchanged and replace only the records")
     F = ctx.facts()
+    summaries = builder_summaries(F)
+    if len(summaries) < 5:
+        res.missing_anchor("DatasetBase builder methods new/with_records/with_weights/with_feature_names/with_target_names (summarised %s)" % sorted(summaries))
     fns = [f for f in F.find_fns(name="transform", krate="linfa_preprocessing", trait="Transformer") if "DatasetBase" in f["output"]]
     for fn in fns:
         key = fn_key(fn)
-        tr = Tracer(fn).run()
-        rv = as_term(tr.result)
-        parts = {}
-        t = rv
-        while t is not None and t.is_call("with_weights", "with_feature_names", "with_target_names") and len(t.args) == 2:
-            parts[t.name] = t.args[1]
-            t = as_term(t.args[0])
-        if t is None or not t.is_call("new") or len(t.args) != 2:
+        tr = Tracer(fn, inline=ctx.inliner()).run()
+        parts = dataset_parts(tr.result, summaries)
+        if parts is None:
             res.instance("%s : result shape" % key)
-            res.violate("%s : result-shape" % key, "result is not DatasetBase::new(records, targets).with_weights(..).with_feature_names(..).with_target_names(..): %s" % k(rv)[:120], fn_loc(fn))
+            res.undecided("%s : result-shape" % key, "cannot read the result as a dataset built from the input with the DatasetBase builder methods: %s" % k(tr.result)[:120], fn_loc(fn))
             continue
         x = "param:%s" % (fn["params"][1]["name"] if len(fn["params"]) > 1 and fn["params"][1].get("k") == "Bind" else "x")
         want = {
-            "targets": (t.args[1], ["field:targets(%s)" % x, "call:targets(%s)" % x]),
-            "with_weights": (parts.get("with_weights"), ["field:weights(%s)" % x, "call:weights(%s)" % x]),
-            "with_feature_names": (parts.get("with_feature_names"), ["call:feature_names(%s)" % x, "field:feature_names(%s)" % x]),
-            "with_target_names": (parts.get("with_target_names"), ["call:target_names(%s)" % x, "field:target_names(%s)" % x]),
+            "targets": ["field:targets(%s)" % x, "call:targets(%s)" % x],
+            "weights": ["field:weights(%s)" % x, "call:weights(%s)" % x],
+            "feature_names": ["call:feature_names(%s)" % x, "field:feature_names(%s)" % x],
+            "target_names": ["call:target_names(%s)" % x, "field:target_names(%s)" % x],
         }
-        for what, (val, accepted) in want.items():
+        for what, accepted in want.items():
             res.instance("%s : %s" % (key, what))
-            if val is None:
-                res.violate("%s : dropped:%s" % (key, what), "the transformed dataset does not carry the input's %s (C16: metadata pass through unchanged)" % what.replace("with_", ""), fn_loc(fn))
+            val = parts[what]
+            if val == "fresh":
+                res.violate("%s : dropped:%s" % (key, what), "the transformed dataset does not carry the input's %s: the builder calls used reset it (C16: metadata pass through unchanged)" % what, fn_loc(fn))
             elif k(val) in accepted:
                 res.ok()
                 res.sample({"fn": key, "part": what, "source": k(val)})
             else:
-                res.violate("%s : altered:%s" % (key, what), "%s of the output is `%s`, not the input's own" % (what.replace("with_", ""), k(val)[:100]), fn_loc(fn))
+                res.violate("%s : altered:%s" % (key, what), "%s of the output is `%s`, not the input's own" % (what, k(val)[:100]), fn_loc(fn))
         res.instance("%s : records" % key)
-        rk = k(t.args[0])
-        if rk == "call:transform(param:self, field:records(%s))" % x or rk == "call:transform(param:self, call:records(%s))" % x:
+        rk = k(parts["records"]) if parts["records"] != "fresh" else "fresh"
+        if rk in ("call:transform(param:self, field:records(%s))" % x, "call:transform(param:self, call:records(%s))" % x):
             res.ok()
         else:
             res.violate("%s : records" % key, "records of the output are not `self.transform(<input records>)`: %s" % rk[:120], fn_loc(fn))
@@ -132,8 +217,52 @@ def rule_div(ctx):
             if pm is None:
                 pm = parent_map(fn["body"])
             guarded = False
+
+            def zero_polarity(cond):
+                """True: the condition holding means divisor == 0; False: means divisor != 0; None: not a zero test of it"""
+                cond = strip(cond)
+                pol = None
+                ops = []
+                if cond.get("k") == "Unary" and cond["op"] == "!":
+                    inner = strip(cond["e"])
+                    neg = True
+                else:
+                    inner, neg = cond, False
+                if inner.get("k") in ("MethodCall", "Call"):
+                    nm = inner["name"] if inner["k"] == "MethodCall" else (c.dfn(strip(inner["f"]).get("def")) or {}).get("name")
+                    args = ([inner["recv"]] if inner["k"] == "MethodCall" else []) + inner["args"]
+                    if nm in ("eq", "abs_diff_eq", "relative_eq", "ulps_eq"):
+                        pol, ops = True, args
+                    elif nm in ("ne", "abs_diff_ne"):
+                        pol, ops = False, args
+                    elif nm == "is_zero":
+                        pol, ops = True, args + [None]
+                elif inner.get("k") == "Binary" and inner["op"] in ("==", "!=", ">", "<"):
+                    pol = inner["op"] == "=="
+                    ops = [inner["l"], inner["r"]]
+                if pol is None:
+                    return None
+                if neg:
+                    pol = not pol
+                has_div = any(o is not None and r.e(peel_refs(o)) == dtxt for o in ops)
+                has_zero = any(o is None or is_zero_const(c, o) for o in ops)
+                return pol if (has_div and has_zero) else None
             cur = n
-            while id(cur) in pm:
+            while id(cur) in pm and not guarded:
+                par = pm[id(cur)]
+                # an earlier statement of an enclosing block that leaves (continue / return / break) when the divisor is zero
+                if par.get("k") == "Block":
+                    for st in par["stmts"]:
+                        st0 = strip(st)
+                        if st0 is cur or any(x is cur for x in walk(st0)):
+                            break
+                        if st0.get("k") == "If" and not st0.get("else") and zero_polarity(st0["c"]) is True:
+                            leaves = [x for x in walk(st0["then"]) if x.get("k") in ("Continue", "Ret", "Break")]
+                            if leaves:
+                                guarded = True
+                cur = par
+            cur = n
+            while id(cur) in pm and not guarded:
                 par = pm[id(cur)]
                 if par.get("k") == "If":
                     in_then = any(x is cur for x in walk(par["then"]))
@@ -204,7 +333,7 @@ def rule_affine(ctx):
             if n.get("k") == "MethodCall" and n["name"] in NONAFFINE:
                 recv_locals = set(x["local"] for x in walk(n["recv"]) if x.get("k") == "Path" and "local" in x)
                 arr_names = [x.get("name") for x in walk(n["recv"]) if x.get("k") == "Path" and "local" in x]
-                if recv_locals & elem or "x" in arr_names:
+                if recv_locals & elem or (xparam is not None and xparam in recv_locals):
                     bad = (n, "`%s` is applied to the data: the transform is no longer the fitted affine map on unseen rows" % r.e(n)[:60])
             if n.get("k") == "If":
                 cl = set(x["local"] for x in walk(n["c"]) if x.get("k") == "Path" and "local" in x)
